@@ -15,7 +15,7 @@ func init() {
 	register(&Property{
 		Meta: report.Meta{
 			Property:    "C13",
-			Explanation: "Step classification of the greedy two-pointer matcher glob.Match: every path of the main loop that reaches the next iteration is classified by how it advances the pattern index i and the string index j (values the loop phis receive on that back edge). A step that consumes one string character together with one pattern character must carry the facts pattern[i] != '\\\\', pattern[i] != '*' and pattern[i] == str[j] (literal step) or pattern[i] == '\\\\', i+1 < len(pattern), pattern[i+1] == str[j] with i advanced by two (escape step); a star step requires pattern[i] == '*'; a backtrack step requires a recorded star. Any other step shape is reported as unrecognised. parseGlob rejects a trailing lone backslash; glob values are only produced by parseGlob; like statements obtain their pattern from parseGlob with the error checked. Language equality itself is a runtime-value clause and is not decided; another matching algorithm would be reported as unrecognised.",
+			Explanation: "Step classification of the greedy two-pointer matcher glob.Match: every path of the main loop that reaches the next iteration is classified by how it advances the pattern index i and the string index j (values the loop phis receive on that back edge). A step that consumes one string character together with one pattern character must carry the facts pattern[i] != '\\\\', pattern[i] != '*' and pattern[i] == str[j] (literal step) or pattern[i] == '\\\\', i+1 < len(pattern), pattern[i+1] == str[j] with i advanced by two (escape step); a star step requires pattern[i] == '*'; a backtrack step requires a recorded star. Any other step shape is reported as unrecognised. parseGlob rejects a trailing lone backslash; glob values are only produced by parseGlob; like statements obtain their pattern from parseGlob with the error checked. Language equality itself is a runtime-value clause and is not decided; another matching algorithm would be reported as unrecognised. The two remembered positions (last star, its match position) are identified among the loop-carried values; the backtracking step must be exactly i = star+1, match = match+1, j = match; the scanning loop is left early only with false when no step applies and no star is remembered.",
 			Assumptions: []string{"byte-wise matching (no multi-byte metacharacters)"},
 			Trusted:     []string{"golang.org/x/tools/go/ssa v0.29.0"},
 			NotDecided:  []string{"equality of the accepted language with the glob language (needs executing the matcher)", "termination of the backtracking loop (C09.T1 audited entry)"},
